@@ -178,6 +178,46 @@ def run_shard(desc, acc):
             spec = rand.rand_model(r, r.randint(60, 200), n_ctcs=0, profile=r.choice(["mixed", "deep", "wide"]),
                                    group_kinds=("alternative", "or", "mutex", "cardinality"))
             run_large(acc, spec, "large-random")
+    # deep nesting (indentation thresholds of the tree-shaped export) - structural comparison
+    for j, depth in enumerate((12, 22, 30, 45)):
+        if j % n == i:
+            root = cur = {"name": "D0", "rels": []}
+            for q in range(1, depth):
+                nxt = {"name": f"D{q}", "rels": []}
+                if q % 4 == 0:
+                    cur["rels"].append({"min": 1, "max": 2, "children": [nxt, {"name": f"E{q}", "rels": []}]})
+                else:
+                    cur["rels"].append({"min": q % 2, "max": 1, "children": [nxt]})
+                cur = nxt
+            run_large(acc, {"root": root, "ctcs": []}, f"deep-chain-{depth}")
+    # names that differ only in letter case, with parallel constraints (in one model and in two models
+    # exported one after the other)
+    for j in range(6):
+        if j % n == i:
+            r = rand.rng(seed, "c10case", j)
+            base = rand.rand_model(r, r.randint(4, 9), group_kinds=("alternative", "or", "mutex"))
+            nm = S.feature_names(base)
+            a, b, c = nm[1], nm[2], nm[0]
+            twin = a.swapcase()
+            if twin in nm or twin == a:
+                continue
+
+            def ren(spec, old, new):
+                import copy
+                s2 = copy.deepcopy(spec)
+                for f in S.features(s2["root"]):
+                    if f["name"] == old:
+                        f["name"] = new
+                return s2
+            one = ren(base, b, twin)
+            one["ctcs"] = [{"name": "c0", "ast": ["IMPLIES", a, c]}, {"name": "c1", "ast": ["IMPLIES", twin, c]},
+                           {"name": "c2", "ast": ["EXCLUDES", a, twin]}]
+            run_case(acc, "case-colliding-names", one)
+            m1 = dict(base, ctcs=[{"name": "c0", "ast": ["REQUIRES", a, b]}])
+            m2 = ren(base, a, twin)
+            m2["ctcs"] = [{"name": "c0", "ast": ["REQUIRES", twin, b]}]
+            run_case(acc, "case-colliding-models", m1)
+            run_case(acc, "case-colliding-models", m2)
     for wi, k in enumerate((9, 10, 11, 12, 13)):
         if wi % n == i:
             r = rand.rng(seed, "c10wide", k)
